@@ -331,6 +331,16 @@ def r6(F, R):
                 rf = _container_field(F, nb, ch[-1][1]["args"][0]) if its and ch[-1][1]["args"] else set()
                 if rf & fs:
                     found = True
+        if not found:
+            # explicit-loop spelling: `for (i, f) in list.iter().enumerate() { if .. { break } }`
+            for nb in F.nested(root):
+                for s2, t2 in nb.calls(lambda t2: callee_is(t2, r"Iterator::next$")):
+                    if not nb.in_cycle(s2) or not t2["args"]:
+                        continue
+                    ch = A.receiver_chain(nb, t2["args"][0])
+                    its = [c for _, c in ch if callee_is(c, r"::iter(_mut)?$|IntoIterator::into_iter$")]
+                    if its and ch[-1][1]["args"] and _container_field(F, nb, ch[-1][1]["args"][0]) & fs:
+                        found = True
         n += 1
         kind = ety.rsplit("::", 1)[-1]
         R.check(found, f"json/entry-searched-among-all/{kind}", s, f"existing {kind} entries are searched before a new one is pushed",
@@ -390,7 +400,8 @@ class JsonTable:
                     if pt is not None and pt[0] == "field":
                         ent = self.T.fm.get(("writer::json::Element", pt[2]))
                         name = ent[0] if ent else None
-                if name is not None or path is not None:    # (pushes into local vectors are not records)
+                recorded = (path is not None and (path.startswith("self.") or ")." in path)) or (path is None and name is not None)
+                if recorded:    # (pushes into local vectors are not records)
                     out.append((name, path, val, e))
         return out
 
@@ -415,6 +426,16 @@ def r7(F, R):
     from . import deep as D
     J = JsonTable(F)
     T, co = J.T, J.co
+    def logs_attached(p, emb):
+        """The entry's embeddings derive from the buffered logs: the term mentions `self.logs`, or (built by an explicit loop, so
+        the vector's content is not a term) the row reads / takes the buffer and the embeddings are not an empty literal."""
+        if emb is None:
+            return False
+        if "self.logs" in T.roots(emb):
+            return True
+        empty = isinstance(emb, tuple) and emb and emb[0] == "call" and re.search(r"Vec::<.*>::new$|Default::default$", emb[1]) and not emb[2]
+        reads = [e for e in p.effects if e[0] == "call" and not re.search(r"Vec::<.*>::(push|clear|len|is_empty|capacity)$", e[1]) and any("self.logs" in T.roots(a) for a in e[2])]
+        return bool(reads) and not empty
     seen_step, seen_hook = set(), set()
     n_started = 0
     n_quiet_bad = []
@@ -459,7 +480,7 @@ def r7(F, R):
                 return False
             args = lookup[0][2]
             roots = [T.roots(a) for a in args]
-            consts = [a[1] for a in args if isinstance(a, tuple) and a[0] == "const" and isinstance(a[1], str)]
+            consts = [x[1] for a in args if isinstance(a, tuple) and a and a[0] in ("const", "ref", "refto", "deref") for x in D.subterms(a) if x[0] == "const" and isinstance(x[1], str)]
             feat = any(any(r.endswith("@Feature.0") for r in rs) for rs in roots)
             scen = any(any(re.search(r"@Scenario\.0$", r) for r in rs) for rs in roots)
             rule_terms = [a for a in args if D.is_variant(a, "std::option::Option")]
@@ -504,8 +525,7 @@ def r7(F, R):
                         ok = D.is_variant(em, "std::option::Option", "None")
                         why = f"a {sv} step carries an error message"
                 if ok:
-                    emb = J.field(v, "writer::json::Step", "embeddings")
-                    ok = "self.logs" in T.roots(emb)
+                    ok = logs_attached(p, J.field(v, "writer::json::Step", "embeddings"))
                     why = "the logs collected for this step are not attached to it"
                 if ok:
                     ok = check_lookup("background" if kind == "Background" else "scenario", inst)
@@ -536,7 +556,7 @@ def r7(F, R):
                     ok = D.is_variant(em, "std::option::Option", "None")
                     why = "a passed hook carries an error message"
                 if ok:
-                    ok = "self.logs" in T.roots(J.field(v, "writer::json::HookResult", "embeddings"))
+                    ok = logs_attached(p, J.field(v, "writer::json::HookResult", "embeddings"))
                     why = "the logs collected for this hook are not attached to it"
                 if ok:
                     ok = check_lookup("scenario", inst)
@@ -645,7 +665,7 @@ def r8(F, R):
                     f"JUnit, {lvl}-level Scenario::Finished: {why}")
         elif d.get("Cucumber") == "Feature" and lvl == "Started":
             seen.add("Feature::Started")
-            ok = len(suit_writes) == 1 and D.is_variant(suit_writes[0][2], "std::option::Option", "Some") and any(r.endswith(".name") for r in T.roots(suit_writes[0][2]) | set().union(*[T.roots(e[2]) for e in calls])) \
+            ok = len(suit_writes) == 1 and D.is_variant(suit_writes[0][2], "std::option::Option", "Some") and any(r.endswith(".name") or r.endswith("@Feature.0") for r in T.roots(suit_writes[0][2]) | set().union(*[T.roots(e[2]) for e in calls])) \
                 and not addcase and not addsuite and not wxml and not pushes
             R.check(ok, "junit/suite-opened", co, "Feature::Started opens a suite named after the feature", "Feature::Started does not open exactly one test suite named after the feature")
         elif d.get("Cucumber") == "Feature" and lvl == "Finished":
@@ -680,13 +700,70 @@ def r9(F, R):
     def prints_directly(b):
         return any(callee_is(t, WRITE) for nb in F.nested(b) for _, t in nb.calls())
 
-    def styles_of(b):
+    STY = r"writer::out::Styles::(\w+)$"
+
+    def built_variants(fb, adt, depth=0):
+        """Variants of crate-local enum `adt` the fn may return (aggregates built in it or in the local fns it calls for the value); None = any."""
+        out = set()
+        for nb in F.nested(fb):
+            for _, st_ in nb.assigns(lambda st_: st_["rv"]["k"] == "agg" and st_["rv"].get("adt") == adt):
+                out.add(st_["rv"]["variant"])
+            for _, t in nb.calls():
+                cb = F.callee_body(t, nb.crate)
+                if cb is not None and cb is not fb and depth < 2 and re.sub(r"<.*", "", cb.locals[0]) == adt:
+                    sub = built_variants(cb, adt, depth + 1)
+                    if sub is None:
+                        return None
+                    out |= sub
+        return out or None
+
+    def styles_of(b, restrict=None, depth=0):
+        """Names of the `Styles::` methods the routine may call — in its own body and closures, and in the module-private fns it calls;
+        a callee that dispatches on a private enum argument (`paint.apply(..)`) contributes only the arms of the variants that argument can
+        hold at that call (the variants its producer builds).  `restrict`: {param local: allowed variants} for the body itself."""
         out = set()
         for nb in F.nested(b):
-            for _, t in nb.calls():
-                m = re.search(r"writer::out::Styles::(\w+)$", callee_path(t) or "")
+            for site, t in nb.calls():
+                if restrict and nb is b:
+                    dead = False
+                    for g in A.guards_of(nb, site):
+                        cd = g.cond_def()
+                        if cd and cd[0] == "discr":
+                            cp = A.canon_place(nb, cd[1])
+                            if not [e for e in cp["p"] if e != "*"] and cp["l"] in restrict and g.variants() is not None and not (g.variants() & restrict[cp["l"]]):
+                                dead = True
+                    if dead:
+                        continue
+                m = re.search(STY, callee_path(t) or "")
                 if m:
                     out.add(m.group(1))
+                    continue
+                cb = F.callee_body(t, nb.crate)
+                if cb is None or depth >= 3 or not cb.name.startswith("writer::basic::") or cb.name in (x.name for x in F.nested(b)):
+                    continue
+                if cb.impl and cb.impl.get("self_adt") == BA and cb.kind in ("Fn", "AssocFn") and prints_directly(cb):
+                    continue      # another printing routine: its styles are its own
+                sub_restrict = {}
+                for i, a in enumerate(t["args"]):
+                    ty = re.sub(r"^&(mut )?", "", cb.locals[i + 1]) if i + 1 < len(cb.locals) else ""
+                    adt_ = re.sub(r"<.*", "", ty)
+                    info = F.adt(adt_)
+                    if info is None or info.get("kind") != "Enum" or adt_.startswith("event::"):
+                        continue
+                    l = op_local(a)
+                    db, src = A.canon_place_deep(F, nb, {"l": l, "p": []}) if l is not None else (nb, None)
+                    if src is not None and src["p"] == ["*"]:
+                        src = A.canon_place(db, {"l": src["l"], "p": []})
+                    d = db.single_def(src["l"]) if src is not None and not src["p"] else None
+                    vs = None
+                    if d is not None and d[1] == "call":
+                        pb = F.callee_body(d[2], db.crate)
+                        vs = built_variants(pb, adt_) if pb is not None else None
+                    elif d is not None and d[1] == "assign" and d[2]["rv"]["k"] == "agg" and d[2]["rv"].get("adt") == adt_:
+                        vs = {d[2]["rv"]["variant"]}
+                    if vs:
+                        sub_restrict[i + 1] = vs
+                out |= styles_of(cb, sub_restrict or None, depth + 1)
         return out
     owns = [b for b in F.crate_bodies() if own(b) and b.kind in ("Fn", "AssocFn")]
     printers = {b.name: b for b in owns if prints_directly(b) and b is not disp and styles_of(b) - {"lines_count"} or (prints_directly(b) and b is not disp and
